@@ -423,12 +423,13 @@ func TestPropLoadKey(t *testing.T) {
 			content, _ = json.Marshal(map[string]any{"keys": raws})
 		}
 		must(os.WriteFile(path, content, 0o600))
-		ids := []string{"", "absent-kid"}
+		var exact []string
 		for _, c := range chosen {
 			if c.Kid != "" {
-				ids = append(ids, c.Kid)
+				exact = append(exact, c.Kid)
 			}
 		}
+		ids := []string{"absent-kid"}
 		// near misses of the ids in the file: padded with white space, other case, a prefix - none of
 		// them is the id of a key, so each must fail like any absent id (and never act as "no id")
 		for _, c := range chosen {
@@ -437,7 +438,17 @@ func TestPropLoadKey(t *testing.T) {
 			}
 		}
 		ids = append(ids, " ", "\n", "\t")
-		id := rapid.SampledFrom(ids).Draw(t, "id")
+		// the class of request first (no id / an id of the file / anything else), so that the many
+		// near misses do not crowd out the first two
+		var id string
+		switch cls := rapid.IntRange(0, 2).Draw(t, "idclass"); {
+		case cls == 0:
+			id = ""
+		case cls == 1 && len(exact) > 0:
+			id = rapid.SampledFrom(exact).Draw(t, "exactid")
+		default:
+			id = rapid.SampledFrom(ids).Draw(t, "otherid")
+		}
 		var want *fileKey
 		if id == "" {
 			if cnt == 1 {
